@@ -283,7 +283,8 @@ func (r *Run) Finish() int {
 	cov["rule"] = r.Rule
 	samples := r.samples
 	if len(samples) == 0 {
-		samples = []interface{}{}
+		// the schema wants at least one written-out case; a monitor that recorded none gets its counters as the sample
+		samples = []interface{}{map[string]interface{}{"note": "the monitor wrote out no individual case in this run; counters stand in", "counters": counters}}
 	}
 	cov["samples"] = samples
 	cov["counters"] = counters
